@@ -108,6 +108,16 @@ func VxHNV() {
 		kind := vxRun(func() { wf.RunTo("C") })
 		vxEmit("run " + kind)
 		vxEmitState("after RunTo(C)")
+	case 10: // a command's standard output turned into parameters (CommandToParams)
+		vxNVLines("printed.txt", []string{"x1", "y2"})
+		wf := mk()
+		c2p := NewCommandToParams(wf, "c2p", "vcmd p:printed.txt")
+		a := wf.NewProc("A", "vcmd w:{o:out} # {p:x}")
+		a.SetOut("out", "A.{p:x}.txt")
+		a.InParam("x").From(c2p.OutParam())
+		kind := vxRun(func() { wf.Run() })
+		vxEmit("run " + kind)
+		vxEmitState("after run")
 	case 7, 8, 9: // a failing command: exit status 3 after a partial write / its shell killed by a signal / declared output never written
 		if vxGet("report") == 0 {
 			wf := mk()
